@@ -1,4 +1,5 @@
 import MemcVerif.Model.Conn
+import MemcVerif.Model.Policy
 /-!
 # Line-protocol driver: runs the executable model on the operations the harness ran on the real code.
 One input line, one output line.
@@ -13,6 +14,7 @@ structure DState where
   cst : CodecState := .none
   cbuf : Bytes := []
   acc : Bytes := []
+  pol : Option Policy := none
 
 def insertSorted (x : String × String) : List (String × String) → List (String × String)
   | [] => [x]
@@ -34,9 +36,14 @@ def reqLine (d : DState) (b : Bytes) : DState × String :=
   | (.needMore, _, _) => (d, "more")
   | (.err, _, _) => (d, "err")
   | (.frame r, _, rest) =>
-    let (s', o) := handleRequest memOps d.store d.now r
     let tail := if rest.isEmpty then "" else s!" rest={rest.length}"
-    ({ d with store := s' }, "resp " ++ showResp o ++ tail)
+    match d.pol with
+    | none =>
+      let (s', o) := handleRequest memOps d.store d.now r
+      ({ d with store := s' }, "resp " ++ showResp o ++ tail)
+    | some p =>
+      let (p', o) := handleRequest polOps p d.now r
+      ({ d with pol := some p' }, "resp " ++ showResp o ++ tail)
 
 def decLoop (limit now : Nat) : Nat → MemStore → CodecState → Bytes → List String → MemStore × CodecState × Bytes × List String
   | 0, s, st, buf, acc => (s, st, buf, acc)
@@ -62,7 +69,14 @@ def step (d : DState) (line : String) : DState × String :=
     match fromHex hx with
     | some b => reqLine d b
     | none => (d, "bad-op")
-  | ["dump"] => (d, dumpMem d.store.mem)
+  | ["dump"] =>
+    match d.pol with
+    | none => (d, dumpMem d.store.mem)
+    | some p => (d, dumpMem p.inner.mem ++ s!" | usage={p.usage} stored={p.stored} tape={if p.bad || !p.tape.isEmpty then "bad" else "ok"}")
+  | ["newp", n, m] =>
+    match n.toNat?, m.toNat? with
+    | some k, some l => ({ limit := k, pol := some (Policy.init l) }, "ok")
+    | _, _ => (d, "bad-op")
   | ["chunk", hx] =>
     match fromHex hx with
     | some b =>
@@ -83,6 +97,13 @@ def step (d : DState) (line : String) : DState × String :=
       ({ d with store := s', cst := st', cbuf := buf' }, "dec " ++ " ".intercalate acc.reverse)
     | none => (d, "bad-op")
   | ["codec"] => ({ d with cst := .none, cbuf := [] }, "ok")
+  | "evict" :: ks =>
+    match d.pol with
+    | none => (d, "bad-op")
+    | some p =>
+      let keys := ks.filterMap fromHex
+      if keys.length != ks.length then (d, "bad-op")
+      else ({ d with pol := some { p with tape := keys, bad := false } }, "ok")
   | _ => (d, "bad-op")
 
 partial def loop (h : IO.FS.Stream) (out : IO.FS.Stream) (d : DState) : IO Unit := do
